@@ -82,7 +82,16 @@ def _one_run(args: Tuple[int, str, int, str]) -> Dict[str, Any]:
                 ex = dry
         else:
             ex = driver.execute_plan(_HOST_INFO, plan)
+        retried = False
+        if any(sx["status"] == "timeout" for sx in ex["sessions"]):
+            # wall-clock kill switch hit (machine overloaded?): a run is a pure function of its plan,
+            # so executing it once more is legitimate; a second timeout is reported as a harness problem
+            retried = True
+            ex = driver.execute_plan(_HOST_INFO, plan)
         res = spec["profile"].check(plan, ex, set(spec["props"]))
+        if retried:
+            res.probe("run_retried_after_timeout")
+        res.harness = [f"{batch_name}/{run}: {h}" for h in res.harness]
         n_ops = sum(len(s["ops"]) for s in plan["sessions"])
         stats = {"sched_steps": 0, "choices": 0}
         faults_cfg: Dict[str, int] = {}
